@@ -111,6 +111,41 @@ def impl_validate(state, bs):
     return v._state, bool(valid), cur
 
 
+def text_oracle(sc, tr, extra):
+    if extra.get("escaped"):
+        return ["exception %s escaped the iterator" % extra["escaped"]]
+    p = sc["_payload"]
+    texts = [it[1] for it in tr if it[0] == 0 and it[1][0] == 6]
+    closings = [it[1] for it in tr if it[0] == 0 and it[1][0] == 10]
+    pes = [it for it in tr if it[0] == 0 and it[1][0] == 13]
+    if sc["_valid"]:
+        if pes:
+            return ["well-formed UTF-8 %s was rejected with a ProtocolError" % p.hex()[:80]]
+        if sc["_close"]:
+            if not closings or closings[0][2] != p:
+                return ["close reason %s was not delivered exactly (got %r)" % (p.hex()[:80], closings[:1])]
+        elif texts != [[6, p]]:
+            return ["text %s was not delivered exactly once as its exact decoding (Text events: %r)" % (p.hex()[:80], [t[1].hex()[:60] for t in texts])]
+    else:
+        if len(pes) != 1:
+            return ["ill-formed UTF-8 %s produced %d ProtocolError events (expected one)" % (p.hex()[:80], len(pes))]
+        if texts:
+            return ["a Text event was produced for ill-formed UTF-8 %s" % p.hex()[:80]]
+        if sc["_close"] and closings:
+            return ["a Closing event was produced for a close reason that is not UTF-8: %s" % p.hex()[:80]]
+    return []
+
+
+def ff_oracle(sc, tr, extra):
+    if extra.get("escaped"):
+        return ["exception %s escaped the iterator" % extra["escaped"]]
+    pes = [it for it in tr if it[0] == 0 and it[1][0] == 13]
+    if len(pes) != 1:
+        return ["the first offending byte of an uncompressed text message (%s, %s) has arrived but %d ProtocolError events were raised before the peer went silent" % (sc["_payload"].hex()[-40:], sc["_mode"], len(pes))]
+    return []
+
+
+
 def run(rep, info, model, tier, seed):
     rnd = random.Random(seed)
     proof_ok = rep.proof_obligations(info, "props/C05.v")
@@ -269,31 +304,7 @@ def delivery_families(rep, model, tier, rnd):
         rep.count("delivery.frames", nfr)
         rep.count("delivery.valid", sc["_valid"])
 
-    def oracle(sc, tr, extra):
-        if extra.get("escaped"):
-            return ["exception %s escaped the iterator" % extra["escaped"]]
-        p = sc["_payload"]
-        texts = [it[1] for it in tr if it[0] == 0 and it[1][0] == 6]
-        closings = [it[1] for it in tr if it[0] == 0 and it[1][0] == 10]
-        pes = [it for it in tr if it[0] == 0 and it[1][0] == 13]
-        if sc["_valid"]:
-            if pes:
-                return ["well-formed UTF-8 %s was rejected with a ProtocolError" % p.hex()[:80]]
-            if sc["_close"]:
-                if not closings or closings[0][2] != p:
-                    return ["close reason %s was not delivered exactly (got %r)" % (p.hex()[:80], closings[:1])]
-            elif texts != [[6, p]]:
-                return ["text %s was not delivered exactly once as its exact decoding (Text events: %r)" % (p.hex()[:80], [t[1].hex()[:60] for t in texts])]
-        else:
-            if len(pes) != 1:
-                return ["ill-formed UTF-8 %s produced %d ProtocolError events (expected one)" % (p.hex()[:80], len(pes))]
-            if texts:
-                return ["a Text event was produced for ill-formed UTF-8 %s" % p.hex()[:80]]
-            if sc["_close"] and closings:
-                return ["a Closing event was produced for a close reason that is not UTF-8: %s" % p.hex()[:80]]
-        return []
-
-    fam.run_family(rep, model, "C05:text-delivery", scs, oracle, project=fam.no_waits,
+    fam.run_family(rep, model, "C05:text-delivery", scs, text_oracle, project=fam.no_waits,
                    rule="a text message (or close reason) with a generated payload (valid / overlong / surrogate / >U+10FFFF / truncated / byte-flip / random), cut into 1-5 frames anywhere incl. inside a code point, optionally with Ping/Pong between fragments, delivered in one read / random reads / byte-at-a-time; Text(payload) iff CPython's strict decoder accepts the payload, else exactly one ProtocolError and no Text")
 
     # ---- fail-fast: deliver up to and including the offending byte, then the peer goes silent
@@ -328,14 +339,6 @@ def delivery_families(rep, model, tier, rnd):
         sc["_payload"] = payload[:off + 1]
         ff.append(sc)
         rep.count("failfast.mode", mode)
-
-    def ff_oracle(sc, tr, extra):
-        if extra.get("escaped"):
-            return ["exception %s escaped the iterator" % extra["escaped"]]
-        pes = [it for it in tr if it[0] == 0 and it[1][0] == 13]
-        if len(pes) != 1:
-            return ["the first offending byte of an uncompressed text message (%s, %s) has arrived but %d ProtocolError events were raised before the peer went silent" % (sc["_payload"].hex()[-40:], sc["_mode"], len(pes))]
-        return []
 
     fam.run_family(rep, model, "C05:fail-fast", ff, ff_oracle, project=fam.no_waits,
                    rule="uncompressed text whose payload has a first offending byte (computed by an independent viability oracle): the stream is delivered up to and including that byte -- single frame, fragmented, or with a Ping between the fragments -- and then stalls; the ProtocolError must already have been raised")
@@ -378,8 +381,20 @@ def replay(body):
         st, valid, cur = impl_validate(sc["state"], bs)
         off = first_offending(bs)
         print("input", bs.hex(), "impl: state=%s valid=%s index=%s" % (st, valid, cur), "oracle: first offending byte index =", off)
-        ok = (valid == (off is None)) and (valid or cur == off)
+        exp = body.get("expected") or {}
+        if sc["state"] != 0:
+            # a run from another automaton state: judged against the expectation stored with the input
+            ok = (valid == exp.get("valid", valid)) and (st == exp.get("state", st))
+        else:
+            ok = (valid == (off is None)) and (valid or cur == off)
+            if "complete" in exp:
+                try:
+                    bs.decode("utf-8")
+                    complete = True
+                except UnicodeDecodeError:
+                    complete = False
+                ok = ok and ((valid and st == 0) == complete)
         print("REPLAY:", "property holds on this input" if ok else "VIOLATION reproduced")
         return 0 if ok else 1
-    print("unknown replay kind")
-    return 2
+    from . import fam as _fam
+    return _fam.replay_generic(body, {"C05:text-delivery": text_oracle, "C05:fail-fast": ff_oracle})
